@@ -849,7 +849,38 @@ fn mutate(r: &mut Rng, lines: &[Vec<u8>], v2: bool) -> Vec<Vec<u8>> {
     let mut ls: Vec<Vec<u8>> = lines.to_vec();
     let some_oid = b"1234567890abcdef1234567890abcdef12345678".to_vec();
     let n = ls.len();
-    match r.below(if n == 0 { 3 } else { 22 }) {
+    match r.below(if n == 0 { 3 } else { 26 }) {
+        22..=25 if !v2 => {
+            // a name is advertised again — preferably one a symref capability mentions
+            let first = ls[0].clone();
+            let body = first.trim_end_with(|c| c == '\n');
+            let mut names: Vec<Vec<u8>> = Vec::new();
+            if let Some(z) = body.find_byte(0) {
+                for cap in body[z + 1..].split(|b| *b == b' ') {
+                    if let Some(v) = cap.strip_prefix(b"symref=") {
+                        if let Some(c) = v.find_byte(b':') {
+                            names.push(v[..c].to_vec());
+                        }
+                    }
+                }
+            }
+            if names.is_empty() || r.chance(1, 4) {
+                for l in lines {
+                    let l = l.trim_end_with(|c| c == '\n');
+                    if let Some(sp) = l.find_byte(b' ') {
+                        let p = &l[sp + 1..];
+                        let p = p.find_byte(0).map_or(p, |z| &p[..z]);
+                        names.push(p.to_vec());
+                    }
+                }
+            }
+            let name = r.pick(&names).clone();
+            for _ in 0..1 + r.usize(2) {
+                let at = 1 + r.usize(ls.len());
+                let suffix: &[u8] = if r.chance(1, 5) { b"^{}\n" } else { b"\n" };
+                ls.insert(at.min(ls.len()), [&some_oid[..], b" ", &name[..], suffix].concat());
+            }
+        }
         0 => ls.push([&some_oid[..], b" refs/heads/extra\n"].concat()),
         1 => ls.push(b"shallow 1234567890abcdef1234567890abcdef12345678\n".to_vec()),
         2 => ls.insert(0, b"ERR no such repository\n".to_vec()),
@@ -1320,6 +1351,58 @@ fn hand_made(rep: &mut Report) {
             l(format!("{b} HEAD^{{}}\n")),
             l(format!("{a} refs/tags/t\n")),
             l(format!("{b} refs/tags/t^{{}}\n")),
+        ],
+        // the ref a symref capability names is advertised twice (adjacent / with other refs between / three times)
+        vec![
+            l(format!("{a} HEAD\0multi_ack symref=HEAD:refs/heads/main\n")),
+            l(format!("{a} HEAD\n")),
+            l(format!("{a} refs/heads/main\n")),
+        ],
+        vec![
+            l(format!("{a} HEAD\0multi_ack symref=HEAD:refs/heads/main\n")),
+            l(format!("{a} refs/heads/main\n")),
+            l(format!("{b} HEAD\n")),
+            l(format!("{c} HEAD\n")),
+        ],
+        vec![
+            l(format!("{a} refs/heads/a\0symref=refs/heads/b:refs/heads/a x\n")),
+            l(format!("{b} refs/heads/b\n")),
+            l(format!("{c} refs/heads/c\n")),
+            l(format!("{b} refs/heads/b\n")),
+        ],
+        // two capabilities for one name, the name advertised once / twice
+        vec![
+            l(format!("{a} HEAD\0symref=HEAD:refs/heads/x symref=HEAD:refs/heads/y\n")),
+            l(format!("{a} refs/heads/x\n")),
+        ],
+        vec![
+            l(format!("{a} HEAD\0symref=HEAD:refs/heads/x symref=HEAD:refs/heads/y\n")),
+            l(format!("{a} HEAD\n")),
+            l(format!("{a} HEAD\n")),
+        ],
+        // a plain ref advertised twice; a tag twice with one peeled line; peeled line far from its tag
+        vec![l(format!("{a} refs/heads/x\0agent=x\n")), l(format!("{a} refs/heads/x\n"))],
+        vec![
+            l(format!("{a} refs/tags/t\0agent=x\n")),
+            l(format!("{a} refs/tags/t\n")),
+            l(format!("{b} refs/tags/t^{{}}\n")),
+            l(format!("{b} refs/tags/t^{{}}\n")),
+        ],
+        vec![
+            l(format!("{a} refs/tags/t\0agent=x\n")),
+            l(format!("{c} refs/heads/z\n")),
+            l(format!("{b} refs/tags/t^{{}}\n")),
+        ],
+        // `^{{}}` for the symref'd ref, twice / after a duplicate
+        vec![
+            l(format!("{a} HEAD\0symref=HEAD:refs/tags/t\n")),
+            l(format!("{b} HEAD^{{}}\n")),
+            l(format!("{b} HEAD^{{}}\n")),
+        ],
+        vec![
+            l(format!("{a} HEAD\0symref=HEAD:refs/tags/t\n")),
+            l(format!("{a} HEAD\n")),
+            l(format!("{b} HEAD^{{}}\n")),
         ],
         vec![l(format!("0000000000000000000000000000000000000000 capabilities^{{}}\0agent=x\n"))],
         vec![l(format!("{a} capabilities^{{}}\0agent=x\n"))],
